@@ -7,22 +7,35 @@ ROOT="$(cd "$(dirname "$0")" && pwd)"
 export VERIF_ROOT="$ROOT"
 export GOFLAGS=-mod=mod GOPROXY=off GOSUMDB=off GOTOOLCHAIN=local GONOSUMDB='*' GONOSUMCHECK=1 GOFLAGS=-mod=mod
 cd "$ROOT/harness" || exit 2
-mkdir -p .build "$ROOT/evidence" "$ROOT/replays"
+# The tree under test is /repo. (VERIF_REPO=<dir> points the same machinery at another checkout, e.g. a scratch worktree with a
+# seeded change applied, built into its own directory so that it never disturbs the registered checks.)
+REPO="${VERIF_REPO:-/repo}"
+B=.build
+MODFLAG=""
+if [ "$REPO" != /repo ]; then
+  B=".build-$(echo "$REPO" | md5sum | cut -c1-8)"
+  mkdir -p "$B"
+  sed "s#=> /repo#=> $REPO#" go.mod > "$B/alt.mod"; cp "$REPO/go.sum" "$B/alt.sum"
+  MODFLAG="-modfile=$B/alt.mod"
+  export VERIF_EVIDENCE_DIR="$ROOT/harness/$B/evidence"
+fi
+export VERIF_REPO="$REPO" VERIF_BUILD_DIR="$ROOT/harness/$B"
+mkdir -p "$B" "$ROOT/evidence" "$ROOT/replays"
 
 build() {
-  cp /repo/go.sum go.sum 2>/dev/null
-  # one build at a time: concurrent checks share .build
-  exec 9>.build/lock
+  [ "$REPO" = /repo ] && cp /repo/go.sum go.sum 2>/dev/null
+  # one build at a time: concurrent checks share the build directory
+  exec 9>$B/lock
   flock 9
-  if ! go build -tags verif -o .build/vcheck ./cmd/vcheck 2>.build/build.log; then
-    echo "BUILD-FAILED (harness or tree under test does not compile with -tags verif):"; tail -30 .build/build.log; exit 2
+  if ! go build $MODFLAG -tags verif -o $B/vcheck ./cmd/vcheck 2>$B/build.log; then
+    echo "BUILD-FAILED (harness or tree under test does not compile with -tags verif):"; tail -30 $B/build.log; exit 2
   fi
-  if ! (cd /repo && go build -o "$ROOT/harness/.build/k8snetpolicy" ./cmd/netpolicy) 2>>.build/build.log; then
-    echo "BUILD-FAILED (k8snetpolicy binary):"; tail -30 .build/build.log; exit 2
+  if ! (cd "$REPO" && go build -o "$ROOT/harness/$B/k8snetpolicy" ./cmd/netpolicy) 2>>$B/build.log; then
+    echo "BUILD-FAILED (k8snetpolicy binary):"; tail -30 $B/build.log; exit 2
   fi
   if [ "${1:-}" = race ]; then
-    if ! go build -race -tags verif -o .build/vcheck-race ./cmd/vcheck 2>>.build/build.log; then
-      echo "BUILD-FAILED (race build):"; tail -30 .build/build.log; exit 2
+    if ! go build $MODFLAG -race -tags verif -o $B/vcheck-race ./cmd/vcheck 2>>$B/build.log; then
+      echo "BUILD-FAILED (race build):"; tail -30 $B/build.log; exit 2
     fi
   fi
   flock -u 9
@@ -31,20 +44,20 @@ build() {
 case "${1:-}" in
   setup)
     build race
-    echo "setup ok: $(ls .build)"
+    echo "setup ok: $(ls $B)"
     ;;
   replay)
     build
-    exec .build/vcheck replay "$2"
+    exec $B/vcheck replay "$2"
     ;;
   replay-case)
     build
-    exec .build/vcheck case "$2" "$3" "$4" "$5"
+    exec $B/vcheck case "$2" "$3" "$4" "$5"
     ;;
   C[0-9][0-9])
     tier="${2:-${VERIF_TIER:-quick}}"
     if [ "$tier" = thorough ]; then build race; else build; fi
-    exec .build/vcheck run "$1" "$tier"
+    exec $B/vcheck run "$1" "$tier"
     ;;
   *)
     echo "usage: $0 <Cnn> <quick|thorough> | setup | replay <path> | replay-case <Cnn> <tier> <seed> <idx>"; exit 2
